@@ -25,6 +25,13 @@ ATOMIC_RECS = ('std::atomic', 'std::__atomic_base', 'std::atomic_flag')
 CALLS = ('CXXMemberCallExpr', 'CXXOperatorCallExpr', 'CallExpr')
 
 
+def fty_noexcept(fty):
+    """is the function type (as printed in the side table) declared noexcept?  `noexcept(<expr>)` counts: for the standard library
+    types met here the expression (allocator traits) is true"""
+    import re
+    return bool(re.search(r'\)\s*(const)?\s*(volatile)?\s*&{0,2}\s*noexcept', fty or ''))
+
+
 def last(q):
     return (q or '').split('::')[-1]
 
